@@ -271,11 +271,16 @@ class AccessorMatrix(Leg):
             Vertex.NEIGHBOR_CACHING = case["caching"]
             before = full_view(w, o)
             cont = ACCESSORS[case["accessor"]](w, o)
-            private = [o["a"]._links, o["e1"]._vertices, o["u"]._vertices, o["a"]._universes, o["L"]._edge_whitelist,
-                       getattr(o["a"], "_Vertex__qa_nb_cache", None)]
-            private += list(getattr(o["a"], "_Vertex__qa_nb_cache", {}).values())
-            if isinstance(o["L"]._edge_whitelist, dict):
-                private += list(o["L"]._edge_whitelist.values())
+            # every container the objects hold privately, whatever the fields are called (robust against renames):
+            # the values of vars() of every fixture object, one level into dicts
+            private = []
+            for obj in o.values():
+                if hasattr(obj, "__dict__"):
+                    for val in vars(obj).values():
+                        if isinstance(val, (list, dict, set)):
+                            private.append(val)
+                            if isinstance(val, dict):
+                                private += [x for x in val.values() if isinstance(x, (list, dict, set))]
             alias = any(cont is p for p in private)
             # the result of a LATER call, held while the first result is edited: it must not follow the edit
             cont2 = ACCESSORS[case["accessor"]](w, o)
@@ -412,7 +417,7 @@ class InputContainers(Leg):
             w.extra = lambda: None
             cont, mutate = _inputs()[case["input"]](w)
             before = (w.snapshot(), w.extra())
-            kept = any(cont is getattr(o, attr, None) for o in w.objs for attr in ("_links", "_vertices", "_universes", "_edge_whitelist"))
+            kept = any(cont is val for o in w.objs if hasattr(o, "__dict__") for val in vars(o).values())
             mutate()
             after = (w.snapshot(), w.extra())
             return {"same": before == after, "kept": kept, "diff": None if before == after else _first_diff({"s": before[0], "x": before[1]}, {"s": after[0], "x": after[1]})}
